@@ -12,6 +12,9 @@ from ..prog import Contract, Interface, Method, Arg, Other, P, sv_msg, foreign, 
 THEOREMS = ["c13_only_attributes_change", "c13_item_attributes", "c13_method_attributes", "c13_foreign_attributes_survive",
             "c13_handler_parameter_attributes_removed", "c13_helper_methods_untouched", "c13_idempotent"]
 
+THEOREMS_T = ["c13_translated_items_keep_foreign_attributes", "c13_translated_methods", "c13_translated_parameters",
+              "c13_translated_remove_input_attr"]
+
 HEADER = ("From Coq Require Import String List.\nImport ListNotations.\nRequire Import SV.Model.GenTables SV.Model.Strip.\n"
           "Open Scope string_scope.\n")
 
@@ -169,6 +172,10 @@ def check(run, replay=None):
         SV_NAMES = {"custom", "error", "messages", "msg", "override_entry_point", "attr", "msg_attr", "payload", "data", "features"}
     run.hygiene()
     run.prove("Props/C13", THEOREMS)
+    # strengthening tie: `StripInput` of fold.rs translated from the source (GenImpFold.v)
+    from . import libcommon
+    libcommon.regen_imp(run)
+    run.prove("Props/C13T", THEOREMS_T, strengthening=True)
     # ---- real sources
     files = sorted(glob.glob(os.path.join(common.REPO, "sylvia", "tests", "*.rs")) +
                    glob.glob(os.path.join(common.REPO, "examples", "**", "src", "**", "*.rs"), recursive=True) +
